@@ -20,7 +20,7 @@ PROPS: dict[str, dict] = {
     "C15": {"modules": ["vf.h_backends"], "harnesses": ["backends-symreal"]},
     "C18": {"modules": ["vf.h_gateway"], "harnesses": ["gateway-reports"]},
     "C19": {"modules": ["vf.h_builder"], "harnesses": ["job-builder"]},
-    "C12": {"modules": ["vf.h_serial"], "harnesses": ["serial-roundtrip"]},
+    "C12": {"modules": ["vf.h_serial"], "harnesses": ["serial-roundtrip", "serial-symnames"]},
     "C10": {"modules": ["vf.h_lower"], "harnesses": ["lower-args", "lower-yields", "lower-builder-run"]},
     "C16": {"modules": ["vf.h_presched"], "harnesses": ["presched"]},
     "C01": {"modules": ["vf.h_ctrl", "vf.h_stack"], "harnesses": ["ctrl-C01", "act-step", "fullstack-C01"]},
